@@ -66,6 +66,8 @@ structure World (V : Type) where
   fp      : Nat → V → Option V      -- conversion to the declared type with this id; none = raises
   pred    : Nat → V → Bool          -- user callables given as no_input= / no_output=
   addConv : V → Option V            -- conversion to the class's addition type; none = raises
+  copy    : V → V                   -- `copy_value` (utils/functional.py): what a default is passed through at every use
+  schemaExcluded : List Key         -- the names `Schema` itself keeps out of fields and additions (its own members)
 
 /-- What the user writes: `attname: T = Field(...)` (after the `readonly/writeonly → mode` shortcut). -/
 structure FieldDecl (V : Type) where
@@ -162,6 +164,7 @@ structure Parser (V : Type) where
   additionTyped : Bool                   -- addition_type is set (Options.addition was a type)
   dataFirst : Bool                       -- assign_search_strategy
   depsOk : Bool := true                  -- every declared dependency names a field (else ConfigError, field.py:708-715)
+  excludeVars : List Key := []           -- exclude_vars: `_private`, ClassVar, methods and other class-internal names
   deriving Repr
 
 def fieldKey {V : Type} (W : World V) (f : PField V) : Key := if f.ci then W.lower f.name else f.name
@@ -203,6 +206,7 @@ structure ClassDecl (V : Type) where
   bases : List Nat := []        -- data-class bases, as indices of earlier declarations, in `__bases__` order
   ownOpts : Bool := true        -- the body assigns `__options__`; otherwise the attribute of the first base is found
   drops : List Key := []        -- `name = ...` in the body: the field taken over under this key is dropped
+  excluded : List Key := []     -- names of the body that are no fields: `_private`, ClassVar annotations, methods
   deriving Repr
 
 /-- what declaring a class leaves behind: its parser, and the `Options` its `__options__` attribute holds -/
@@ -225,6 +229,9 @@ def mkParserIn {V : Type} (W : World V) (prev : List (Built V)) (c : ClassDecl V
   let inherited := c.bases.reverse.foldl
     (fun acc b => match prev[b]? with | some p => dupdate acc p.parser.fields | none => acc) []
   -- `annotations.update(parser.annotations)`: the base *parser's* accumulated map, so every level is kept
+  -- `exclude_vars.update(parser.exclude_vars)`; a class without data-class bases has `Schema`'s own
+  let exclIn := if c.bases.isEmpty then W.schemaExcluded else c.bases.reverse.foldl
+    (fun acc b => match prev[b]? with | some p => acc ++ p.parser.excludeVars | none => acc) []
   let annIn := c.bases.reverse.foldl
     (fun acc b => match prev[b]? with | some p => dupdate acc p.annotations | none => acc) []
   let annOut := c.fields.foldl (fun acc d => match d.ty with | some t => dset d.attname t acc | none => acc) annIn
@@ -240,7 +247,8 @@ def mkParserIn {V : Type} (W : World V) (prev : List (Built V)) (c : ClassDecl V
         -- (a dropped name that is no key of a field taken over would be read as a new field with default `...`:
         --  outside the modelled fragment, reported as not well-formed)
         depsOk := (fs.all fun kf => kf.2.deps.all fun dep => (depKey fs amap dep).isSome)
-                  && c.drops.all fun k => dhas k inherited }
+                  && c.drops.all fun k => dhas k inherited
+        excludeVars := exclIn ++ c.excluded }
     opts := eo, additionTyped := typed, annotations := annOut }
 
 /-- the declarations of a module, in order -/
@@ -284,6 +292,12 @@ def flagAt {V : Type} (W : World V) (fl : Flag) (v : V) : Flag :=
   | .pred k => if W.pred k v then .yes else .no
   | x => x
 
+/-- `if self.mode: return options.mode not in self.mode` — an empty mode string is falsy: no restriction -/
+def modeExcludes (fmode : Option (List Nat)) (m : Nat) : Bool :=
+  match fmode with
+  | some fm => !fm.isEmpty && !fm.contains m
+  | none => false
+
 /-- `is_no_input` / `is_no_output` share one shape (field.py:814-838, 873-895). -/
 def flagHolds {V : Type} (L : Legacy) (W : World V) (omode : Option Nat) (fmode : Option (List Nat))
     (fl : Flag) (v : V) : Bool :=
@@ -295,9 +309,9 @@ def flagHolds {V : Type} (L : Legacy) (W : World V) (omode : Option Nat) (fmode 
     | .modes ms =>
       if L.modeStringReturns then ms.contains m
       else if ms.contains m then true
-      else (match fmode with | some fm => !fm.contains m | none => false)
+      else modeExcludes fmode m
     | .yes => true
-    | _ => (match fmode with | some fm => !fm.contains m | none => false)
+    | _ => modeExcludes fmode m
 
 def isNoInput {V : Type} (L : Legacy) (W : World V) (o : Opts V) (f : PField V) (v : V) : Bool :=
   flagHolds L W o.mode f.mode f.noInput v
@@ -316,11 +330,11 @@ def alwaysNoInput {V : Type} (L : Legacy) (o : Opts V) (f : PField V) : Bool :=
       match fl with
       | .pred _ =>
         if L.predSkipsMode then false
-        else (match f.mode with | some fm => !fm.contains m | none => false)
+        else modeExcludes f.mode m
       | .modes ms =>
         if ms.contains m then true
-        else (match f.mode with | some fm => !fm.contains m | none => false)
-      | _ => (match f.mode with | some fm => !fm.contains m | none => false)
+        else modeExcludes f.mode m
+      | _ => modeExcludes f.mode m
 
 /-- `is_required` (field.py:803-812) -/
 def isRequired {V : Type} (L : Legacy) (o : Opts V) (f : PField V) : Bool :=
@@ -332,13 +346,13 @@ def isRequired {V : Type} (L : Legacy) (o : Opts V) (f : PField V) : Bool :=
     | .modes ms => (match o.mode with | none => false | some m => ms.contains m)
 
 /-- `get_default(options, defer)` (field.py:768-796); the copy is C19's business. -/
-def getDefault {V : Type} (o : Opts V) (f : PField V) (defer : Bool) : Option V :=
+def getDefault {V : Type} (W : World V) (o : Opts V) (f : PField V) (defer : Bool) : Option V :=
   if o.noDefault then none
   else if !defer && (f.deferDefault || o.deferDefault) then none
   else if defer && !(f.deferDefault || o.deferDefault) then none
-  else match o.forceDefault with
+  else (match o.forceDefault with
     | some d => some d
-    | none => f.default
+    | none => f.default).map W.copy          -- `return copy_value(default)`
 
 def getOnError {V : Type} (o : Opts V) (f : PField V) : OnErr := f.onError.getD o.invalidValues
 
@@ -377,8 +391,8 @@ def parseValue {V : Type} (L : Legacy) (W : World V) (o : Opts V) (f : PField V)
   | none =>
     match getOnError o f with
     | .exclude =>
-      if isRequired L o f then (getDefault o f false, [.parse f.name], false)
-      else if L.excludedProvided then (getDefault o f false, [], false)
+      if isRequired L o f then (getDefault W o f false, [.parse f.name], false)
+      else if L.excludedProvided then (getDefault W o f false, [], false)
       else (none, [], true)            -- `return self.EXCLUDED`: the caller treats the field as not given
     | .preserve => (some v, [], false)
     | .throw => (none, [.parse f.name], false)
@@ -390,7 +404,7 @@ strategies then handle in their own way. -/
 def provide {V : Type} (L : Legacy) (W : World V) (o : Opts V) (f : PField V) (v : V) (conflict : Bool)
     (st : St V) : St V × Bool :=
   if isNoInput L W o f v then
-    match getDefault o f false with
+    match getDefault W o f false with
     | some d => ({ st with result := dset f.name d st.result }, false)
     | none => (st, false)
   else
@@ -404,23 +418,26 @@ def provide {V : Type} (L : Legacy) (W : World V) (o : Opts V) (f : PField V) (v
 
 /-- field_first_parse on `parsed is field.EXCLUDED`: as a field that was not given — it joins the unprovided
 fields, its default applies, it demands no dependencies -/
-def ffExcluded {V : Type} (o : Opts V) (f : PField V) (st : St V) : St V :=
+def ffExcluded {V : Type} (W : World V) (o : Opts V) (f : PField V) (st : St V) : St V :=
   let st := { st with unprov := st.unprov ++ [f.name] }
-  match getDefault o f false with
+  match getDefault W o f false with
   | some d => { st with result := dset f.name d st.result }
   | none => st
 
 /-- The statements for a field without input (base.py:489-502 and 579-590). -/
-def absent {V : Type} (L : Legacy) (o : Opts V) (f : PField V) (st : St V) : St V :=
+def absent {V : Type} (L : Legacy) (W : World V) (o : Opts V) (f : PField V) (st : St V) : St V :=
   let st := { st with unprov := st.unprov ++ [f.name] }
   if isRequired L o f then { st with errs := st.errs ++ [.absence f.name] }
-  else match getDefault o f false with
+  else match getDefault W o f false with
     | some d => { st with result := dset f.name d st.result }
     | none => st
 
 /-- `parse_addition` (base.py:390-421): value to keep (if any) and errors. -/
 def parseAddition {V : Type} (W : World V) (P : Parser V) (o : Opts V) (k : Key) (v : V) :
     Option V × List Err :=
+  if o.addition = .forbid then (none, [.exceed k]) else
+  -- excluded vars cannot be carried in the addition even if allowed
+  if P.excludeVars.contains k then (none, []) else
   match o.addition with
   | .forbid => (none, [.exceed k])
   | .ignore => (none, [])
@@ -433,6 +450,12 @@ def parseAddition {V : Type} (W : World V) (P : Parser V) (o : Opts V) (k : Key)
         | .exclude => (none, [])
         | .preserve => (some v, [])
         | .throw => (some v, [.parse k])      -- ParseError(item=key); the raw value is returned
+
+/-- `parse_addition` before fixes/C05-excluded-name-rejected.patch: the excluded names were tested first, so such a
+key was dropped silently even under `addition=False` -/
+def parseAdditionLegacy {V : Type} (W : World V) (P : Parser V) (o : Opts V) (k : Key) (v : V) :
+    Option V × List Err :=
+  if P.excludeVars.contains k then (none, []) else parseAddition W P o k v
 
 /-- keep one unknown key: `add_value = self.parse_addition(...)`; `addition[key] = add_value` unless unprovided -/
 def addStep {V : Type} (W : World V) (P : Parser V) (o : Opts V) (acc : List (Key × V) × List Err)
@@ -510,16 +533,16 @@ def dfItemStep {V : Type} (L : Legacy) (W : World V) (P : Parser V) (o : Opts V)
     { acc with st := r.1, excluded := if r.2 then acc.excluded ++ [ni.1] else acc.excluded }
 
 /-- third loop (base.py:489-502) -/
-def dfAbsentAll {V : Type} (L : Legacy) (P : Parser V) (o : Opts V) (inputs : List (Key × Input V))
+def dfAbsentAll {V : Type} (L : Legacy) (W : World V) (P : Parser V) (o : Opts V) (inputs : List (Key × Input V))
     (excluded : List Key) (st : St V) : St V :=
   P.fields.foldl (fun st kf =>
-    if dhas kf.2.name inputs && !excluded.contains kf.2.name then st else absent L o kf.2 st) st
+    if dhas kf.2.name inputs && !excluded.contains kf.2.name then st else absent L W o kf.2 st) st
 
 def dataFirst {V : Type} [DecidableEq V] (L : Legacy) (W : World V) (P : Parser V) (o : Opts V)
     (data : List (Key × V)) : St V :=
   let s := data.foldl (dfScanStep W P) {}
   let r := s.inputs.foldl (dfItemStep L W P o s.conflicts) {}
-  let st := dfAbsentAll L P o s.inputs r.excluded r.st
+  let st := dfAbsentAll L W P o s.inputs r.excluded r.st
   let st := depsCheck P st
   { st with result := dupdate st.result r.addition }
 
@@ -571,10 +594,10 @@ def ffFieldStep {V : Type} [DecidableEq V] (L : Legacy) (W : World V) (o : Opts 
     (s : FfSt V) (kf : Key × PField V) : FfSt V :=
   let f := kf.2
   match ffPick o.ignoreAliasConflicts m f.allAliases none with
-  | (none, _) => { s with st := absent L o f s.st }
+  | (none, _) => { s with st := absent L W o f s.st }
   | (some v, c) =>
     let r := provide L W o f v c s.st
-    { st := if r.2 then ffExcluded o f r.1 else r.1, used := s.used ++ f.allAliases }
+    { st := if r.2 then ffExcluded W o f r.1 else r.1, used := s.used ++ f.allAliases }
 
 /-- the addition loop: over the input in its original spelling (`origin`), skipping the keys whose lookup key
 belongs to a provided field -/
@@ -649,13 +672,13 @@ def initSchemaH {V : Type} [DecidableEq V] (L : Legacy) (W : World V) (decls : L
     finish L W B.parser o (parseData L W B.parser o data)
 
 /-- `Schema.__field_getter__` (schema.py:280-304) for a non-property field: what `inst.<attname>` gives. -/
-def getattrView {V : Type} (o : Opts V) (f : PField V) (mapping attrs : List (Key × V)) : Option V :=
+def getattrView {V : Type} (W : World V) (o : Opts V) (f : PField V) (mapping attrs : List (Key × V)) : Option V :=
   match dget f.name mapping with
   | some v => some v
   | none =>
     match dget f.attname attrs with
     | some v => some v
-    | none => getDefault o f true
+    | none => getDefault W o f true
 
 /-! ### Well-formed parsers: what `generate_fields` / `generate_aliases` / `apply_fields` guarantee
 (their ConfigErrors, base.py:282-318, cls.py:205-219, field.py:695-715) -/
@@ -701,7 +724,7 @@ def dataFirstLegacy {V : Type} [DecidableEq V] (W : World V) (P : Parser V) (o :
       ({ st with errs := st.errs ++ es }, match a with | some x => dset kv.1 x add | none => add)
     | some f =>
       if isNoInput L W o f kv.2 then
-        ((match getDefault o f false with
+        ((match getDefault W o f false with
           | some d => { st with result := dset f.name d st.result } | none => st), add)
       else
         match (if o.ignoreAliasConflicts then none else dget f.name st.result) with
@@ -715,7 +738,7 @@ def dataFirstLegacy {V : Type} [DecidableEq V] (W : World V) (P : Parser V) (o :
             | some r => { st with result := dset f.name r st.result, deps := st.deps ++ f.deps }), add))
     (({} : St V), [])
   let st := if o.ignoreRequired then st else
-    P.fields.foldl (fun st kf => if dhas kf.2.name st.result then st else absent L o kf.2 st) st
+    P.fields.foldl (fun st kf => if dhas kf.2.name st.result then st else absent L W o kf.2 st) st
   let st := depsCheck P st
   { st with result := dupdate st.result add }
 
@@ -730,7 +753,7 @@ def fieldFirstLegacy {V : Type} [DecidableEq V] (W : World V) (P : Parser V) (o 
   let s := P.fields.foldl (fun (s : FfSt V) kf =>
     let f := kf.2
     match ffPick o.ignoreAliasConflicts m f.allAliases none with
-    | (none, _) => { s with st := absent L o f s.st }
+    | (none, _) => { s with st := absent L W o f s.st }
     | (some v, c) =>
       let st := if c then { s.st with errs := s.st.errs ++ [.aliasConflict f.name] } else s.st
       { st := (provide L W o f v false st).1, used := s.used ++ f.allAliases }) {}
